@@ -22,23 +22,52 @@ mod whole;
 use std::io::{self, BufRead, Write};
 use std::panic::{self, AssertUnwindSafe};
 
+/// Per-request watchdog: a request that runs longer than `VERIF_CASE_TIMEOUT` seconds (default 10)
+/// is reported as `TIMEOUT` and the process exits with status 3 (the caller resumes after that
+/// request). A spinning thread cannot be cancelled, hence the exit.
+static CASE_START_MS: std::sync::atomic::AtomicU64 = std::sync::atomic::AtomicU64::new(0);
+
+fn now_ms() -> u64 {
+    use std::time::{SystemTime, UNIX_EPOCH};
+    SystemTime::now().duration_since(UNIX_EPOCH).map(|d| d.as_millis() as u64).unwrap_or(0)
+}
+
 fn main() {
+    use std::sync::atomic::Ordering;
+    use std::sync::{Arc, Mutex};
+
     let args: Vec<String> = std::env::args().collect();
     let mode = args.get(1).map(String::as_str).unwrap_or("impl");
     panic::set_hook(Box::new(|_| {}));
+    let limit_ms: u64 = std::env::var("VERIF_CASE_TIMEOUT").ok().and_then(|s| s.parse().ok()).unwrap_or(10) * 1000;
 
     let stdin = io::stdin();
-    let stdout = io::stdout();
-    let mut out = io::BufWriter::new(stdout.lock());
+    let out = Arc::new(Mutex::new(io::BufWriter::new(io::stdout())));
+    {
+        let out = Arc::clone(&out);
+        std::thread::spawn(move || loop {
+            std::thread::sleep(std::time::Duration::from_millis(200));
+            let start = CASE_START_MS.load(Ordering::SeqCst);
+            if start != 0 && now_ms().saturating_sub(start) > limit_ms {
+                if let Ok(mut o) = out.lock() {
+                    let _ = writeln!(o, "TIMEOUT request ran longer than {} s", limit_ms / 1000);
+                    let _ = o.flush();
+                }
+                std::process::exit(3);
+            }
+        });
+    }
 
     for line in stdin.lock().lines() {
         let line = line.expect("stdin");
         let toks: Vec<&str> = line.split_ascii_whitespace().collect();
+        CASE_START_MS.store(now_ms(), Ordering::SeqCst);
         let res = panic::catch_unwind(AssertUnwindSafe(|| match mode {
             "impl" => dispatch_impl(&toks),
             "prop" => dispatch_prop(&toks),
             _ => "bad-mode".to_owned(),
         }));
+        CASE_START_MS.store(0, Ordering::SeqCst);
         let s = match res {
             Ok(s) => s,
             Err(e) => {
@@ -50,9 +79,9 @@ fn main() {
                 format!("PANIC {}", msg.replace('\n', " "))
             }
         };
-        writeln!(out, "{s}").unwrap();
+        writeln!(out.lock().unwrap(), "{s}").unwrap();
     }
-    out.flush().unwrap();
+    out.lock().unwrap().flush().unwrap();
 }
 
 /// Each module answers the requests it knows (`None` = not mine).
